@@ -325,6 +325,65 @@ pub fn check(prop: &str, tier: &str) -> i32 {
         }
     }
     rep.set("seed_sweep", json!({"seeds_per_protocol_and_config": sweep_n, "first_seed": crate::report::sweep_base(sweep_n), "generations": sweep_runs, "label": "sweep of a finite seed range in PRNG mode, default 60-300 opcodes; not exhaustive over 2^64 seeds"}));
+    // every entry of the embedded module table, once through GLOBAL and once through INST (text arguments)
+    if matches!(prop, "C04" | "C05") {
+        use rayon::prelude::*;
+        let n = crate::script::MODULE_COUNT.get().copied().unwrap_or(0);
+        let noop = |_: &RunCtx| -> Vec<Finding> { vec![] };
+        let mut done = 0u64;
+        for p in [0u8, 2] {
+            let cfg = Cfg::new(p);
+            let ex = Explorer { base_cfg: cfg.clone(), opts: Opts::default(), monitor: &noop, xval_full: Default::default(), choice_discovery: Default::default() };
+            let g = crate::explore::scenario(&ex, false, &[vec![b'c']]);
+            let i = crate::explore::scenario(&ex, false, &[vec![b'('], vec![b'N'], vec![b'i']]);
+            for (what, base, k) in [("GLOBAL", g, 1usize), ("INST", i, 3usize)] {
+                let Ok(base) = base else {
+                    rep.machinery.push(format!("module table run: cannot steer to {what} in protocol {p}"));
+                    continue;
+                };
+                // the module index is the value draw of the last step: find its offset once
+                let (_c, _r, tr) = ex.run(&base.script, k);
+                let Some(d) = tr.steps.last().and_then(|st| st.draws.iter().find(|d| !d.is_choice && d.method == "choose_index" && d.a == n).cloned()) else {
+                    rep.machinery.push(format!("module table run: no choose_index({n}) draw in the {what} step"));
+                    continue;
+                };
+                let bad: Vec<(u64, Finding)> = (0..n)
+                    .into_par_iter()
+                    .flat_map_iter(|idx| {
+                        let mut s = base.script[..d.off.min(base.script.len())].to_vec();
+                        s.resize(d.off, 0);
+                        s.extend_from_slice(&crate::script::enc_index(idx, n));
+                        let mut c = cfg.clone();
+                        c.min = k;
+                        c.max = k;
+                        let r = crate::run::run_bytes(&c, &s, true, false);
+                        let trx = trace::parse(&r.events, s.len(), false);
+                        let fs = match r.bytes() {
+                            Some(b) => {
+                                let (ops, m) = analyse(b);
+                                let ctx = RunCtx { cfg: &c, script: &s, res: &r, tr: &trx, ops: &ops, m: m.as_ref() };
+                                mon(&ctx)
+                            }
+                            None => vec![],
+                        };
+                        fs.into_iter().map(move |f| (idx, f)).collect::<Vec<_>>()
+                    })
+                    .collect();
+                done += n;
+                for (idx, fd) in bad.into_iter().take(5) {
+                    let mut s = base.script[..d.off.min(base.script.len())].to_vec();
+                    s.resize(d.off, 0);
+                    s.extend_from_slice(&crate::script::enc_index(idx, n));
+                    let mut c = cfg.clone();
+                    c.min = k;
+                    c.max = k;
+                    rep.finding_raw(&format!("{}:module-entry", fd.class), &format!("{what} with module table entry #{idx}: {}", fd.msg), json!({"kind":"bytes","config":c.to_json(),"script_hex":lexer::hex(&s)}));
+                }
+            }
+        }
+        rep.transitions += done;
+        rep.set("module_table_entries_through_GLOBAL_and_INST", json!({"entries": n, "generations": done}));
+    }
     // reuse: the second and third pickle of ONE generator (no reset in between) go through the same oracle
     {
         use rayon::prelude::*;
